@@ -290,6 +290,7 @@ def parse_output(path) -> TLCResult:
     res = TLCResult(ok=True)
     err_lines = []
     in_err = False
+    pending = None
     trace = []
     in_trace = False
     with open(path, errors="replace") as fh:
@@ -334,6 +335,16 @@ def parse_output(path) -> TLCResult:
                 res.coverage[m.group(1)] = (int(m.group(2)), int(m.group(3)))
                 continue
             s = line.strip()
+            if pending is not None:
+                # TLC pretty-prints values wider than 80 columns over several lines: join until the brackets balance
+                pending += " " + s
+                if pending.count("<<") <= pending.count(">>") or len(pending) > 100000:
+                    res.prints.append(pending)
+                    pending = None
+                continue
+            if s.startswith("<<") and s.count("<<") > s.count(">>"):
+                pending = s
+                continue
             if s.startswith('"') or s.startswith("<<"):
                 res.prints.append(s)
     if err_lines:
